@@ -64,8 +64,13 @@ def gen_name(rng, used, ext_choices=None):
     raise RuntimeError("name space exhausted")
 
 
+NAMES_USED = {}
+
+
 def split_source(src):
     """independent reading of a source argument: (upper name, upper ext, kind, mode, path to open)"""
+    if len(NAMES_USED) < 20000:
+        NAMES_USED[src] = True
     base = src.rsplit("/", 1)[-1]
     path = src
     opt = ""
@@ -224,3 +229,40 @@ def tape_facts_ok(cols, first, size, nblocks):
     ok_size = cols[1] == f"{size} octets" or (size == 1 and cols[1] == "1 octet")
     ok_blocks = cols[2] == f"{nblocks} blocks." or (nblocks == 1 and cols[2] == "1 block.")
     return ok_size and ok_blocks
+
+
+_NAMES_SEEN = {}
+
+
+def disk_split_twin(src):
+    """independent reading of a source argument by the disk archivers: (upper stem, upper extension without the option,
+    upper extension with it, path to open) — the option ',a' is taken off whatever the extension is"""
+    base = src.rsplit("/", 1)[-1]
+    opt = src[-2:].upper() == ",A"
+    path = src[:-2] if opt else src
+    if "." in base:
+        stem, ext = base.rsplit(".", 1)
+        return stem.upper(), (ext[:-2] if opt else ext).upper(), ext.upper(), path
+    return base.upper(), "", "", path
+
+
+def check_naming_spec(res, srcs):
+    """the naming rule has two independent statements — `Spec.Names` in Lean (the one the theorems C01.catalog_name_is_8_3,
+    C02 / C03.source_naming_rule are about) and the Python twins above (the ones the oracles use): they must agree on every
+    name a stream generates.  A difference is a fault of the machinery, not of the tool: it stops the check (exit 2)."""
+    from common import drv, cps, uncps
+    todo = [s for s in dict.fromkeys(srcs) if s not in _NAMES_SEEN and s.isascii() and s]
+    if not todo:
+        return
+    ans = drv([f"names.tape {cps(s)}" for s in todo] + [f"names.disk {cps(s)}" for s in todo])
+    for i, s in enumerate(todo):
+        _NAMES_SEEN[s] = True
+        n, e, k, m, p = ans[i].split(" ")
+        lean_tape = (uncps(n), uncps(e), int(k), int(m), uncps(p))
+        tn, te, tk, tm, tp = split_source(s)
+        if lean_tape != (tn[:8], te[:3], tk, tm, tp):
+            raise RuntimeError(f"naming rule: Spec.Names.tapeSource and the Python twin differ on {s!r}: {lean_tape} / {(tn[:8], te[:3], tk, tm, tp)}")
+        lean_disk = tuple(uncps(x) for x in ans[len(todo) + i].split(" "))
+        if lean_disk != disk_split_twin(s):
+            raise RuntimeError(f"naming rule: Spec.Names.diskSource and the Python twin differ on {s!r}: {lean_disk} / {disk_split_twin(s)}")
+        res.count("naming_rule_lean_spec_equals_twin")
